@@ -11,6 +11,8 @@ import (
 	"regexp"
 	"strconv"
 	"strings"
+	"syscall"
+	"time"
 
 	admissionapi "k8s.io/pod-security-admission/admission/api"
 	"k8s.io/pod-security-admission/admission/api/load"
@@ -486,6 +488,60 @@ func runC17(c *Ctx) {
 			if canon(viaReader) != canon(want) || canon(viaFile) != canon(want) {
 				c.Violate(Finding{Desc: fmt.Sprintf("the same %d bytes load differently through LoadFromData, LoadFromReader and LoadFromFile", len(data)), Key: "entry-points-differ", Input: in,
 					Go: J{"data": trunc(canon(want), 600), "reader": trunc(canon(viaReader), 600), "file": trunc(canon(viaFile), 600)}})
+			}
+			// a configuration file need not be a regular file: a symbolic link (how a mounted ConfigMap presents its keys), a
+			// named pipe (process substitution, a secrets agent) — whatever can be opened and read to the end is the document
+			if data != nil && len(data) < 400000 {
+				link, fifo := path+".link", path+".fifo"
+				viaLink, viaFifo := cfgOut{OK: false}, cfgOut{OK: false}
+				if os.Symlink(path, link) == nil {
+					if cfg, err := load.LoadFromFile(link); err == nil {
+						viaLink = describeCfg(cfg)
+					}
+				} else {
+					viaLink = want
+				}
+				if syscall.Mkfifo(fifo, 0o600) == nil {
+					wrote := make(chan struct{})
+					go func() {
+						defer close(wrote)
+						if f, err := os.OpenFile(fifo, os.O_WRONLY, 0); err == nil {
+							f.Write(data)
+							f.Close()
+						}
+					}()
+					res := make(chan cfgOut, 1)
+					go func() {
+						out := cfgOut{OK: false}
+						if cfg, err := load.LoadFromFile(fifo); err == nil {
+							out = describeCfg(cfg)
+						}
+						res <- out
+					}()
+					select {
+					case viaFifo = <-res:
+					case <-time.After(20 * time.Second):
+						viaFifo = cfgOut{OK: false}
+					}
+					// a loader that gave up without opening the pipe leaves the writer waiting: let it go
+					select {
+					case <-wrote:
+					default:
+						if f, err := os.OpenFile(fifo, os.O_RDONLY|syscall.O_NONBLOCK, 0); err == nil {
+							io.Copy(io.Discard, f)
+							<-wrote
+							f.Close()
+						}
+					}
+				} else {
+					viaFifo = want
+				}
+				c.Eval(2)
+				c.Tag("entryPoints.link+fifo")
+				if canon(viaLink) != canon(want) || canon(viaFifo) != canon(want) {
+					c.Violate(Finding{Desc: fmt.Sprintf("the same %d bytes load differently from a regular file, through a symbolic link and from a named pipe", len(data)), Key: "entry-points-differ-special-file", Input: in,
+						Go: J{"data": trunc(canon(want), 600), "symlink": trunc(canon(viaLink), 600), "namedPipe": trunc(canon(viaFifo), 600)}})
+				}
 			}
 			if len(data) > 1000 && (!want.OK || want.Cfg["enforce"] != "restricted" || want.Cfg["enforceVersion"] != "v1.25" || len(want.Cfg["namespaces"].([]string)) < 10) {
 				c.Violate(Finding{Desc: "a large, well-formed configuration is not loaded with the content it states", Key: "large-config", Input: in, Go: trunc(canon(want), 600)})
